@@ -250,7 +250,7 @@ structure PopTok where
 
 inductive PopOp where
   | renew | rekey | revoke
-  deriving Repr, DecidableEq, BEq
+  deriving Repr, DecidableEq
 
 structure PopCfg where
   ca : CAKeys
@@ -272,7 +272,7 @@ def opGate (cfg : PopCfg) (op : PopOp) (c : PopCert) (t : PopTok) : Bool :=
     certificate type (user keys for user certificates, host keys otherwise), token signature
     under the certificate key, claims, audience, subject. -/
 def popAuthorize (cfg : PopCfg) (op : PopOp) (c : PopCert) (t : PopTok) : Bool :=
-  !(op != .renew && (c.notYet || c.expired)) &&
+  !(decide (op ≠ .renew) && (c.notYet || c.expired)) &&
   (if c.ct = 1 then c.sigUser else c.sigHost) &&
   t.sigOK && t.claimsOK && t.audOK && t.subNonEmpty &&
   opGate cfg op c t
